@@ -27,6 +27,7 @@ def run(ctx):
     gram.g9_kvp_value(ctx, g, P)
     gram.g6_modifiers(ctx, g, P)
     gram.g12_scan_strings(ctx, g, P)
+    gram.g18_message_not_key(ctx, g, P)
     finder.rule_macro_filter(ctx, facts, "C11-R1")
     finder.rule_filter_before_entry(ctx, facts, "C11-R1")
     ctx.assume("pest semantics: COMMENT is tried between the elements of every non-atomic rule, including the scan loop of `file`")
